@@ -294,15 +294,16 @@ func (e *posError) Position() token.Pos         { return e.pos }
 
 // Append combines two errors, flattening lists as necessary.
 //
-// Note: this may mutate a if it is already a list, so
-// must not be used if a might have been shared across multiple
-// goroutines.
+// If a is a list it is not modified: the list may be the error of a value
+// that is shared across multiple goroutines.
 func Append(a, b Error) Error {
 	switch x := a.(type) {
 	case nil:
 		return b
 	case list:
-		return appendToList(x, b)
+		// Clip the list so that appending to it allocates a new backing
+		// array instead of writing into the spare capacity of a's.
+		return appendToList(slices.Clip(x), b)
 	}
 	// Preserve order of errors.
 	return appendToList(list{a}, b)
